@@ -192,6 +192,74 @@ def sig_worker(args):
     return out
 
 
+SPELLINGS = ['pkcs1', 'PKCS1', 'Pkcs1', 'pss', 'PSS']
+SIG_OIDS = {'sha1': [0x2a, 0x86, 0x48, 0x86, 0xf7, 0xd, 0x1, 0x1, 0x5], 'sha256': [0x2a, 0x86, 0x48, 0x86, 0xf7, 0xd, 0x1, 0x1, 0xb]}
+
+
+def twin_keys(kfile):
+    """(rsa-typed key, rsa-pss-typed key) over the SAME modulus and private exponent"""
+    import c10_util as U
+    from tlslite.utils.python_rsakey import Python_RSAKey
+    k = U.load_key(kfile)
+    mk = lambda t: Python_RSAKey(int(k.n), int(k.e), int(k.d), int(k.p), int(k.q), int(k.dP), int(k.dQ), int(k.qInv), key_type=t)
+    return mk('rsa'), mk('rsa-pss')
+
+
+def dispatch_calls(key, sig, msg, h, slen):
+    """every public verification entry point x spelling: (entry, spelling, thunk)"""
+    import hashlib as hl
+    from tlslite.signed import SignedObject
+    digest = hl.new(h, msg).digest()
+    out = []
+    for sp in SPELLINGS:
+        out.append(('verify', sp, lambda sp=sp: key.verify(bytearray(sig), bytearray(digest), sp, h, slen)))
+        out.append(('hashAndVerify', sp, lambda sp=sp: key.hashAndVerify(bytearray(sig), bytearray(msg), sp, h, slen)))
+        out.append(('hashAndVerify-kw', sp, lambda sp=sp: key.hashAndVerify(bytearray(sig), bytearray(msg), rsaScheme=sp, hAlg=h.upper(), sLen=slen)))
+    out.append(('hashAndVerify-default-scheme', 'PKCS1', lambda: key.hashAndVerify(bytearray(sig), bytearray(msg), hAlg=h)))
+    if h == 'sha1':
+        out.append(('hashAndVerify-all-defaults', 'PKCS1', lambda: key.hashAndVerify(bytearray(sig), bytearray(msg))))
+
+    def so():
+        o = SignedObject()
+        o.tbs_data, o.signature, o.signature_alg = bytearray(msg), bytearray(sig), SIG_OIDS[h]
+        return o.verify_signature(key)
+    out.append(('SignedObject.verify_signature', 'PKCS1', so))
+    return out
+
+
+def dispatch_worker(args):
+    """key_type x entry point x spelling of the scheme name x scheme the signature was made with.
+    Oracle (from the property): a signature verifies only under the scheme it was made with and only if
+    the key type allows that scheme (an rsa-pss key: PSS only); hashAndVerify and SignedObject must also
+    ACCEPT the matching scheme in any spelling; verify() must accept the exact lower-case name."""
+    kfile, seed = args
+    rng = random.Random(seed)
+    out = []
+    try:
+        k_rsa, k_pss = twin_keys(kfile)
+        msg = bytes(rng.randrange(256) for _ in range(rng.choice([1, 20, 77])))
+        for h in ('sha256', 'sha1'):
+            slen = 32 if h == 'sha256' else 20
+            sigs = {'pkcs1': bytes(k_rsa.hashAndSign(bytearray(msg), 'pkcs1', h, 0)),
+                    'pss': bytes(k_rsa.hashAndSign(bytearray(msg), 'pss', h, slen))}
+            for ktype, key in (('rsa', k_rsa), ('rsa-pss', k_pss)):
+                for made, sig in sigs.items():
+                    for entry, sp, thunk in dispatch_calls(key, sig, msg, h, slen):
+                        try:
+                            got = bool(thunk())
+                        except Exception as e:  # noqa
+                            got = 'exc:' + type(e).__name__
+                        asked = sp.lower()
+                        allowed = (asked == made) and not (ktype == 'rsa-pss' and made == 'pkcs1')
+                        must_accept = allowed and (entry != 'verify' or sp == asked)
+                        out.append(dict(kfile=kfile, key_type=ktype, entry=entry, spelling=sp, made_with=made, hash=h, slen=slen,
+                                        got=got, must_accept=must_accept, must_reject=not allowed, msg=msg.hex(), sig=sig.hex()))
+    except Exception as e:  # noqa
+        import traceback
+        out.append(dict(kfile=kfile, error='%s: %s' % (type(e).__name__, e), tb=traceback.format_exc()[-800:]))
+    return out
+
+
 def dsa_generate_worker(seed):
     """Python_DSAKey.generate(): do the generated parameters satisfy the hypotheses of
     dsa_sign_verifies, and do signatures made with the generated key verify?"""
@@ -443,6 +511,13 @@ Definition CaseDB := (dsa_key * list Z * option (Z * Z) * list Z * Z * bool)%typ
 Definition chk_dsader (c : CaseDB) : bool :=
   let '(key, sig, dec, data, w, impl) := c in
   Bool.eqb (dsa_verify_bytes (fun _ => dec) key sig data (fun _ => w)) impl.
+Definition CaseN := (Z * bool * Z * Z * list Z * list Z * string * string * Z * Z * list (list Z * list Z) * option bool * Z)%type.
+Definition chk_dispatch (c : CaseN) : bool :=
+  let '(entry, ispss, n, e, sig, m, name, h, sLen, hLen, tbl, impl, code) := c in
+  res_matches Bool.eqb
+    (if entry =? 0 then rsa_verify_named (table_lookup tbl) hLen ispss n e sig m name (Some h) sLen
+     else if entry =? 1 then rsa_hashAndVerify (table_lookup tbl) hLen ispss n e sig m name h sLen
+     else signed_object_verify (table_lookup tbl) hLen ispss n e sig m h) impl code.
 Definition CaseX := (bool * list Z * list Z * option (list Z) * Z)%type.
 Definition chk_x (c : CaseX) : bool :=
   let '(is448, k, u, impl, code) := c in
@@ -666,6 +741,44 @@ def model_cases_worker(args):
                 impl, code = None, EXC_CODE.get(type(ex).__name__, 99)
             lits.append('(%s, %d, %d, %d, %s, %s, %d)' % (vlib.boollit(ver == (3, 4)), g, p, x, slit, vlib.optlit(impl, blit), code))
             meta.append(dict(fam=fam, p_bits=p.bit_length(), y=y if y < 2 ** 64 else 'big', ver=ver, code=code))
+    elif fam == 'dispatch':
+        import hashlib as hl
+        from tlslite.signed import SignedObject
+        k_rsa, k_pss = twin_keys('clientX509Key.pem')
+        msg = bytes(rng.randrange(256) for _ in range(33))
+        h, slen = 'sha256', 32
+        digest = hl.new(h, msg).digest()
+        sigs = {'pkcs1': bytes(k_rsa.hashAndSign(bytearray(msg), 'pkcs1', h, 0)), 'pss': bytes(k_rsa.hashAndSign(bytearray(msg), 'pss', h, slen))}
+        allc = []
+        for ispss, key in ((False, k_rsa), (True, k_pss)):
+            for made, sig in sigs.items():
+                for sp in SPELLINGS + ['oaep']:
+                    allc.append((0, ispss, key, made, sig, sp))
+                    allc.append((1, ispss, key, made, sig, sp))
+                allc.append((2, ispss, key, made, sig, 'PKCS1'))
+                allc.append((2, ispss, key, made, b'\x00' + sig, 'PKCS1'))
+        rng.shuffle(allc)
+        for entry, ispss, key, made, sig, sp in allc[:n]:
+            with HashRecorder() as hr:
+                try:
+                    if entry == 0:
+                        r = key.verify(bytearray(sig), bytearray(digest), sp, h, slen)
+                    elif entry == 1:
+                        r = key.hashAndVerify(bytearray(sig), bytearray(msg), sp, h.upper() if rng.random() < 0.3 else h, slen)
+                    else:
+                        o = SignedObject()
+                        o.tbs_data, o.signature, o.signature_alg = bytearray(msg), bytearray(sig), SIG_OIDS[h]
+                        try:
+                            r = o.verify_signature(key)
+                        except ValueError:
+                            r = False
+                    impl, code = bool(r), 0
+                except Exception as ex:  # noqa
+                    impl, code = None, EXC_CODE.get(type(ex).__name__, 99)
+            lits.append('(%d, %s, %s, %s, %s, %s, %s, %s, %d, 32, %s, %s, %d)' % (
+                entry, vlib.boollit(ispss), zlit(key.n), zlit(key.e), blit(sig), blit(digest if entry == 0 else msg), vlib.strlit(sp),
+                vlib.strlit(h), slen, tbl_lit(hr.table), vlib.optlit(impl, vlib.boollit), code))
+            meta.append(dict(fam=fam, entry=entry, key_is_pss=ispss, cls=made, scheme=sp, impl=impl, code=code))
     elif fam in ('dsasign', 'dsaverify', 'dsader'):
         import tlslite.utils.python_dsakey as pdk
         from tlslite.utils.cryptomath import invMod, isPrime
@@ -779,7 +892,7 @@ def model_cases_worker(args):
 FAMILIES = {'verify': ('CaseV', 'chk_verify'), 'verify-raw': ('CaseV', 'chk_verify'), 'encode': ('CaseE', 'chk_encode'),
             'pad': ('CaseP', 'chk_pad'), 'math': ('CaseM', 'chk_math'), 'sign': ('CaseS', 'chk_sign'),
             'ffdh': ('CaseF', 'chk_ffdh'), 'x': ('CaseX', 'chk_x'), 'dsasign': ('CaseDS', 'chk_dsasign'),
-            'dsaverify': ('CaseDV', 'chk_dsaverify'), 'dsader': ('CaseDB', 'chk_dsader')}
+            'dsaverify': ('CaseDV', 'chk_dsaverify'), 'dsader': ('CaseDB', 'chk_dsader'), 'dispatch': ('CaseN', 'chk_dispatch')}
 
 
 # ------------------------------------------------------------------------------------------
@@ -820,6 +933,7 @@ def run(ctx):
                 sig_tasks.append((kname, kfile, kind, scheme, h, slen, rng.randrange(2 ** 31), 6 if quick else 10 ** 9, not quick))
         a_sig = pool.map_async(sig_worker, sig_tasks, chunksize=1)
         a_odd = pool.map_async(odd_key_worker, ['rsa704', 'rsa1025'])
+        a_disp = pool.map_async(dispatch_worker, [(f, rng.randrange(2 ** 31)) for f in ('serverRSAPSSKey.pem', 'clientX509Key.pem', 'serverX509Key.pem')])
         a_dsagen = pool.map_async(dsa_generate_worker, [rng.randrange(2 ** 31) for _ in range(2 if quick else 8)])
         kex_tasks = []
         for ver in ((3, 3), (3, 4)):
@@ -866,6 +980,7 @@ def run(ctx):
         fam_n['dsasign'] = 30 if quick else 300
         fam_n['dsaverify'] = 12 if quick else 100
         fam_n['dsader'] = 8 if quick else 60
+        fam_n['dispatch'] = 36 if quick else 80
         a_model = pool.map_async(model_cases_worker, [(f, rng.randrange(2 ** 31), k) for f, k in sorted(fam_n.items())], chunksize=1)
 
         # ---------------- fault injection (needs the baselines first)
@@ -961,6 +1076,25 @@ def run(ctx):
                     found = ctx.violation('sig-accepted:rsa:pss-leading-byte-nonzero',
                                           'RSA-PSS, 1025-bit modulus: a signature whose EM has a non-zero byte in front of the emLen bytes is accepted',
                                           dict(r, key_file='corpus/C10/rsa1025.pem', osig=r.get('lead_sig'))) or found
+        nd = 0
+        for recs in a_disp.get(900):
+            for r in recs:
+                if 'error' in r:
+                    tie_broken = tie_broken or 'dispatch worker failed for %s: %s' % (r['kfile'], r['error'])
+                    continue
+                nd += 1
+                ctx.count('scheme-dispatch', 1, [(r['key_type'], r['entry'], r['spelling'], r['made_with'], r['hash'], str(r['got']))],
+                          sample={k: r[k] for k in ('key_type', 'entry', 'spelling', 'made_with', 'got')} if nd % 97 == 1 else None)
+                call = '%s key (tests/%s, key_type=%s): %s(sig, ..., scheme=%r, hash=%s) on a signature made with %s' % (
+                    r['key_type'], r['kfile'], r['key_type'], r['entry'], r['spelling'], r['hash'], r['made_with'])
+                if r['must_reject'] and r['got'] is True:
+                    found = ctx.violation('scheme-confusion:%s:%s:%s-sig-under-%s-key' % (r['entry'], r['spelling'], r['made_with'], r['key_type']),
+                                          'ACCEPTED: ' + call, dict(r, how='harness/props/C10.py dispatch_calls(twin_keys(kfile)[%d], sig, msg, hash, slen)'
+                                                                            % (1 if r['key_type'] == 'rsa-pss' else 0))) or found
+                if r['must_accept'] and r['got'] is not True:
+                    found = ctx.violation('scheme-roundtrip:%s:%s:%s:%s' % (r['entry'], r['spelling'], r['made_with'], r['key_type']),
+                                          'NOT accepted (%s): ' % (r['got'],) + call, dict(r)) or found
+        ctx.log('scheme/key-type dispatch: %d calls' % nd)
         for r in a_dsagen.get(900):
             ctx.count('dsa-generate', 1, [('verified', r.get('verified'), r.get('q_divides_p_minus_1'))], sample={k: str(v)[:60] for k, v in r.items()})
             if 'error' in r:
@@ -1028,7 +1162,7 @@ def run(ctx):
         files, owners = [], []
         for fam, lits, meta in fams:
             ty, fn = FAMILIES[fam]
-            per = 1 if fam in ('x', 'verify', 'verify-raw') else (4 if fam == 'ffdh' else 10)
+            per = 1 if fam in ('x', 'verify', 'verify-raw') else 3 if fam == 'dispatch' else (4 if fam == 'ffdh' else 10)
             ns = max(1, (len(lits) + per - 1) // per)
             for sh in range(ns):
                 text = ('From Coq Require Import ZArith List Bool String.\n'
@@ -1054,7 +1188,7 @@ def run(ctx):
                 tie_broken = tie_broken or 'model %s disagrees with the implementation on %s' % (fam, json.dumps(meta[gi], default=repr)[:600])
         for fam, lits, meta in fams:
             ctx.count('model-vs-impl:' + fam, len(lits), [tuple(sorted((k, str(v)) for k, v in m.items() if k in
-                                                                       ('cls', 'scheme', 'hash', 'code', 'impl', 'bits', 'p_bits', 'is448', 'embits', 'qbits'))) for m in meta])
+                                                                       ('cls', 'scheme', 'hash', 'code', 'impl', 'bits', 'p_bits', 'is448', 'embits', 'qbits', 'entry', 'key_is_pss'))) for m in meta])
         ctx.log('model vs implementation: %s' % {f: len(l) for f, l, _ in fams})
     elif not res['model_ok']:
         tie_broken = tie_broken or 'model does not compile: %s' % res['failing']
@@ -1098,6 +1232,17 @@ def replay(ctx, path):
         out = L.run_fault_case((r['flavour'], r['fault_at'], 1, r.get('fault_kind', 'plus1')))
         print(out, L.judge_fault(out))
         return 0 if L.judge_fault(out)[0] != 'violation' else 1
+    if 'entry' in r and 'kfile' in r and 'spelling' in r:
+        key = twin_keys(r['kfile'])[1 if r['key_type'] == 'rsa-pss' else 0]
+        for entry, sp, thunk in dispatch_calls(key, bytes.fromhex(r['sig']), bytes.fromhex(r['msg']), r['hash'], r['slen']):
+            if entry == r['entry'] and sp == r['spelling']:
+                try:
+                    got = bool(thunk())
+                except Exception as e:  # noqa
+                    got = 'exc:' + type(e).__name__
+                print('%s(%r) with a %s key on a %s signature ->' % (entry, sp, r['key_type'], r['made_with']), got)
+                return 1 if (r['must_reject'] and got is True) or (r['must_accept'] and got is not True) else 0
+        return 1
     if 'q_divides_p_minus_1' in r:
         out = dsa_generate_worker(r['seed'])
         print({k: str(v)[:70] for k, v in out.items()})
